@@ -561,7 +561,7 @@ fn convert_operators(e_id: ExprNodeId, file_path: PathBuf) -> ExprNodeId {
                 .collect::<Vec<_>>();
 
             // Generate a unique temporary variable name
-            let temp_var_name = "record_update_temp".to_symbol();
+            let temp_var_name = "record_update$temp".to_symbol();
 
             // Create the initial let binding: let original = record
             let temp_pattern = crate::pattern::TypedPattern {
